@@ -117,7 +117,7 @@ pub fn gen(seed: u64, n: usize, _tier: &str) -> Vec<Case> {
         ops.push(vec![b("BDUMP"), i(0)]);
         for db in 0..2 {
             ops.push(cmd_op(OBS, &[b"SELECT", if db == 0 { b"0" } else { b"1" }]));
-            for k in LKEYS { ops.push(cmd_op(OBS, &[b"LRANGE", k, b"0", b"-1"])); ops.push(cmd_op(OBS, &[b"TYPE", k])); }
+            for k in LKEYS.iter().chain([&b"s"[..]].iter()) { ops.push(cmd_op(OBS, &[b"LRANGE", k, b"0", b"-1"])); ops.push(cmd_op(OBS, &[b"TYPE", k])); }
             ops.push(cmd_op(OBS, &[b"KEYS", b"*"]));
         }
         cases.push(Case { id: format!("blk-{}", id), ops, outs: vec![] });
